@@ -3,7 +3,7 @@
 //! SQL (so that the optimizer inserts the repartitions a real query gets) for joins, aggregates and
 //! windows.
 use crate::env::{Env, make_env};
-use crate::scripted::{Item, Monitor, Part, Script, ScriptedExec, ScriptedPartition, ScriptedTable, TailGen, parts};
+use crate::scripted::{End, Item, Monitor, Part, Script, ScriptedExec, ScriptedPartition, ScriptedTable, TailGen, parts};
 use arrow::array::{ArrayRef, Int64Array, RecordBatch, StringArray};
 use arrow::compute::SortOptions;
 use arrow::datatypes::{DataType, Field, Schema, SchemaRef};
@@ -262,8 +262,17 @@ fn provider(spec: &PlanSpec, parts: Vec<Part>, ordered: bool, unbounded: bool) -
     }
 }
 
-/// `endless`: every partition gets an endless tail capped at `tail_cap` batches.
-pub async fn build(spec: &PlanSpec, endless: Option<u64>, force_coop: bool) -> Result<Built, BuildError> {
+/// How every source partition continues after its scripted items.
+#[derive(Clone, Copy, Debug, PartialEq, Eq)]
+pub enum Ending {
+    Finish,
+    /// endless always-ready tail, capped at this many batches
+    Tail(u64),
+    HangParked,
+    HangBusy,
+}
+
+pub async fn build(spec: &PlanSpec, ending: Ending, force_coop: bool) -> Result<Built, BuildError> {
     let shape = &spec.shape;
     let tp = spec.target_partitions.clamp(1, 4) as usize;
     let mut config = SessionConfig::new()
@@ -291,9 +300,11 @@ pub async fn build(spec: &PlanSpec, endless: Option<u64>, force_coop: bool) -> R
             .map(|(p, ps)| {
                 let (items, last_ts, rows) = script_of(ps, pad, 0);
                 input_rows += rows;
-                match endless {
-                    None => Script::finite(items),
-                    Some(cap) => Script { items, tail: Some(tail_gen(p + 3 * side, last_ts)), tail_cap: cap, tail_pending_every: 0 },
+                match ending {
+                    Ending::Finish => Script::finite(items),
+                    Ending::Tail(cap) => Script { items, tail: Some(tail_gen(p + 3 * side, last_ts)), tail_cap: cap, tail_pending_every: 0, end: End::Finish },
+                    Ending::HangParked => Script { end: End::HangParked, ..Script::finite(items) },
+                    Ending::HangBusy => Script { end: End::HangBusy, ..Script::finite(items) },
                 }
             })
             .collect();
@@ -392,10 +403,10 @@ pub fn plan_ops(plan: &Arc<dyn ExecutionPlan>, out: &mut Vec<String>) {
     }
 }
 
-pub fn metric_sum(plan: &Arc<dyn ExecutionPlan>, name: &str) -> usize {
-    let mut total = plan.metrics().and_then(|m| m.sum_by_name(name)).map(|v| v.as_usize()).unwrap_or(0);
+pub fn spill_count(plan: &Arc<dyn ExecutionPlan>) -> usize {
+    let mut total = plan.metrics().and_then(|m| m.spill_count()).unwrap_or(0);
     for c in plan.children() {
-        total += metric_sum(c, name);
+        total += spill_count(c);
     }
     total
 }
